@@ -35,12 +35,20 @@ func (t *iTracer) CaptureFault(env *ivm.EVM, pc uint64, op ivm.OpCode, gas, cost
 func (t *iTracer) CaptureState(env *ivm.EVM, pc uint64, op ivm.OpCode, gas, cost uint64, memory *ivm.Memory, stack *ivm.Stack, contract *ivm.Contract, depth int, err error) error {
 	if err != nil {
 		// the instruction was not executed
+		t.c.why = fmt.Sprintf("%v at depth %d pc %d op %s gas %d cost %d", err, depth, pc, opName(byte(op)), gas, cost)
+		if err.Error() == "evm: write protection" {
+			t.c.writeBlocked = true
+		}
 		if err == ivm.ErrOutOfGas && cost > 0 {
 			t.c.budget = true
 		}
 		return nil
 	}
 	o := byte(op)
+	if !interesting(o) {
+		t.c.count(depth, pc, o, contract.Gas, 0, 0)
+		return nil
+	}
 	if o == 0xf0 || o == 0xf5 {
 		var a icommon.Address
 		if o == 0xf0 {
@@ -68,7 +76,7 @@ func (t *iTracer) CaptureState(env *ivm.EVM, pc uint64, op ivm.OpCode, gas, cost
 		depth: depth, pc: pc, op: o, gas: contract.Gas,
 		back:    stack.Back,
 		mem:     memory.Get,
-		self:    fmt.Sprintf("%x", contract.Address().Bytes()),
+		self:    func() string { return fmt.Sprintf("%x", contract.Address().Bytes()) },
 		gasLeft: env.GasLeft(),
 		reqGas: func(a byte, in []byte) uint64 {
 			return ivm.PrecompiledContractsByzantium[icommon.BytesToAddress([]byte{a})].RequiredGas(in)
@@ -148,9 +156,10 @@ func runInTree(c EVMCase, deployed bool) (res *result) {
 	var verr error
 	if len(c.To) == 0 {
 		var addr icommon.Address
+		expect := icrypto.CreateAddress(sender, st.GetNonce(sender))
+		res.tr.createdAddrs = append(res.tr.createdAddrs, fmt.Sprintf("%x", expect[:]))
 		ret, addr, _, verr = evm.Create(ivm.AccountRef(sender), c.Data, topGas, value)
 		res.created = fmt.Sprintf("%x", addr[:])
-		res.tr.createdAddrs = append(res.tr.createdAddrs, res.created)
 	} else {
 		st.SetNonce(sender, st.GetNonce(sender)+1)
 		ret, _, verr = evm.Call(ivm.AccountRef(sender), icommon.BytesToAddress(c.To), c.Data, topGas, value)
